@@ -476,7 +476,9 @@ def _additions(ctx: Ctx, c: Collector) -> None:
                     break
         parts = (_expand_props(ctx, TI, uninl(inline_calls(ctx.prog, fi.module.name, v[2]))),)
         reads = set(T.field_reads(parts))
-        need = {"self.tiers": (me, "tiers"), "other.tiers": (other, "tiers"), "self.cutoff": (me, "cutoff"), "other.cutoff": (other, "cutoff")}
+        # (the sum's tiers are self[i] + other[i] below other.cutoff and other[i] from there on: they need not read self.cutoff,
+        #  which only enters the sum's cutoff -- checked above)
+        need = {"self.tiers": (me, "tiers"), "other.tiers": (other, "tiers"), "other.cutoff": (other, "cutoff")}
         missing = [k for k, x in need.items() if x not in reads]
         if missing:
             pr.append(f"the sum's tiers do not depend on {', '.join(missing)}")
